@@ -211,6 +211,9 @@ func (e *Env) ident(name string) Value {
 		return nilValue{}
 	}
 	if !e.noLocals && e.fr != nil {
+		if alias, ok := e.localAlias(name); ok {
+			name = alias
+		}
 		if v, ok := e.fr.env[name]; ok {
 			if e.fr.envAddr[name] {
 				p := v.(Ptr)
@@ -261,8 +264,14 @@ func (e *Env) eval(x ast.Expr) Value {
 	case *ast.SelectorExpr:
 		return e.selector(t)
 	case *ast.UnaryExpr:
-		if id, ok := t.X.(*ast.Ident); ok && t.Op == token.AND && !e.noLocals && e.fr != nil && e.fr.envAddr[id.Name] {
-			return e.fr.env[id.Name] // address of a local variable that lives in a cell
+		if id, ok := t.X.(*ast.Ident); ok && t.Op == token.AND && !e.noLocals && e.fr != nil {
+			nm := id.Name
+			if alias, ok := e.localAlias(nm); ok {
+				nm = alias
+			}
+			if e.fr.envAddr[nm] {
+				return e.fr.env[nm] // address of a local variable that lives in a cell
+			}
 		}
 		v := e.eval(t.X)
 		switch t.Op {
@@ -961,3 +970,31 @@ func constInt(v constant.Value) *big.Int {
 }
 
 var _ = fmt.Sprintf
+
+// localAlias: a contract may declare "local NAME TYPE"; when the function has no local called NAME
+// any more (a rename), NAME stands for the only named local of that declared type.
+func (e *Env) localAlias(name string) (string, bool) {
+	if e.fr == nil || e.fr.ctr == nil || e.fr.ctr.Locals == nil {
+		return "", false
+	}
+	if _, ok := e.fr.env[name]; ok {
+		return "", false
+	}
+	want, ok := e.fr.ctr.Locals[name]
+	if !ok {
+		return "", false
+	}
+	found := ""
+	for n, t := range e.fr.envType {
+		if t == want {
+			if _, isVar := e.vars[n]; isVar {
+				continue
+			}
+			if found != "" && found != n {
+				return "", false // ambiguous
+			}
+			found = n
+		}
+	}
+	return found, found != ""
+}
